@@ -27,11 +27,13 @@ REQUIRED = {
     "quick": {"chunks_probed_algebraically": 300, "recursion_points": 50000, "class/correlated_config": 40,
               "class/zero_volatility_market": 40, "class/change_point": 150, "class/shock_change": 30,
               "class/correlation_change": 30, "class/crossed_2_chunks": 40, "statistical_runs": 2,
-              "history_prefix_checks": 150, "class/late_start_market": 10},
+              "history_prefix_checks": 150, "class/late_start_market": 10,
+              "class/refused_parameter_request_then_normal_use": 15},
     "thorough": {"chunks_probed_algebraically": 9000, "recursion_points": 1500000, "class/correlated_config": 1200,
                  "class/zero_volatility_market": 1200, "class/change_point": 4500, "class/shock_change": 900,
                  "class/correlation_change": 900, "class/crossed_2_chunks": 1200, "statistical_runs": 40,
-                 "history_prefix_checks": 4500, "class/late_start_market": 300},
+                 "history_prefix_checks": 4500, "class/late_start_market": 300,
+                 "class/refused_parameter_request_then_normal_use": 450},
 }
 CASE_TIMEOUT_S = 300
 
@@ -108,7 +110,13 @@ def gen_case(rng, tier, idx):
                 t = rng.choice(cand)
         r = rng.random()
         m = rng.choice(mk)["id"]
-        if r < 0.25:
+        if rng.random() < 0.15:
+            # a request that is refused by design (and tolerated by the caller); everything must go on as configured
+            changes.append({"t": t, "what": "refused", "m": m, "m2": rng.choice(mk)["id"],
+                            "form": rng.choice(["negative_volatility", "negative_volatility", "corr_too_large",
+                                                "corr_too_small", "corr_same_market", "rmcorr_same_market"]),
+                            "v": rng.choice([0.01, 0.05, 0.3])})
+        elif r < 0.25:
             changes.append({"t": t, "what": "vol", "m": m, "v": rng.choice([0.0, 0.001, 0.01, 0.04])})
         elif r < 0.45:
             changes.append({"t": t, "what": "drift", "m": m, "v": rng.choice([0.0, 0.002, -0.002])})
@@ -242,11 +250,16 @@ def run_walk(case, res):
     mk = case["markets"]
     init = {m["id"]: m["initial"] for m in mk}
     n_gen = [0]
+    model = {}
 
     def sink(ev):
         g = ft.on_event(ev)
         if g is not None:
             n_gen[0] += 1
+            # judged against the monitor's own parameter model (configuration + admitted changes), not against
+            # whatever the object under test stores at this moment
+            g = dict(g, vols={k: model["vol"].get(k, v) for k, v in g["vols"].items()},
+                     drifts={k: model["drift"].get(k, v) for k, v in g["drifts"].items()}, corr=dict(model["corr"]))
             algebraic_probe(res, g, draws, case)
             del draws[:]
 
@@ -262,7 +275,9 @@ def run_walk(case, res):
         markets[m["id"]] = mo
     for a, b, c in case["corr"]:
         f.set_correlation(market_id1=a, market_id2=b, corr=c)
-    params = {"vol": {m["id"]: m["vol"] for m in mk}, "drift": {m["id"]: m["drift"] for m in mk}}
+    params = {"vol": {m["id"]: m["vol"] for m in mk}, "drift": {m["id"]: m["drift"] for m in mk},
+              "corr": {(min(a, b), max(a, b)): c for a, b, c in case["corr"]}}
+    model.update(params)
     T = case["T"]
     changes = list(case["changes"])
     hist = {m["id"]: [] for m in mk}       # values as first read, per time
@@ -339,10 +354,34 @@ def run_walk(case, res):
                 gens_before = len(ft.gens)
                 res.count("class/change_point")
                 what = ch["what"]
+                if what == "refused":
+                    try:
+                        if ch["form"] == "negative_volatility":
+                            f.change_volatility(market_id=ch["m"], volatility=-ch["v"], time=t)
+                        elif ch["form"] == "corr_too_large":
+                            f.set_correlation(market_id1=ch["m"], market_id2=ch["m2"], corr=1.0 + ch["v"], time=t)
+                        elif ch["form"] == "corr_too_small":
+                            f.set_correlation(market_id1=ch["m"], market_id2=ch["m2"], corr=-1.0 - ch["v"], time=t)
+                        elif ch["form"] == "corr_same_market":
+                            f.set_correlation(market_id1=ch["m"], market_id2=ch["m"], corr=ch["v"], time=t)
+                        else:
+                            f.remove_correlation(market_id1=ch["m"], market_id2=ch["m"], time=t)
+                    except ValueError:
+                        res.count("class/refused_parameter_request_then_normal_use")
+                    else:
+                        res.violation("change", "inadmissible-parameter-request-accepted", {"change": ch})
+                        dead = True
+                        break
+                    for mid in markets:
+                        if list(f.get_fundamental_prices(market_id=mid, times=range(0, t + 1))) != snap[mid][: t + 1]:
+                            res.violation("history", "value-before-a-change-point-changed",
+                                          {"market": mid, "change": ch})
+                            dead = True
+                    continue
                 try:
                     if what == "vol":
                         ids_after = [m_ for m_ in params["vol"] if (ch["v"] if m_ == ch["m"] else params["vol"][m_]) > 0]
-                        if not is_pd(len(ids_after), ids_after, [[a, b, c] for (a, b), c in f.correlation.items()]):
+                        if not is_pd(len(ids_after), ids_after, [[a, b, c] for (a, b), c in params["corr"].items()]):
                             res.count("volatility_change_skipped(not admissible)")
                             continue
                         f.change_volatility(market_id=ch["m"], volatility=ch["v"], time=t)
@@ -369,24 +408,26 @@ def run_walk(case, res):
                         if f.get_fundamental_price(market_id=ch["m"], time=t) != newv:
                             res.violation("shock", "shocked-level-not-visible-in-fundamentals", {"market": ch["m"], "time": t})
                     elif what == "setcorr":
-                        cur = dict(f.correlation)
+                        cur = dict(params["corr"])
                         trial = [[a, b, c] for (a, b), c in cur.items() if {a, b} != {ch["m"], ch["m2"]}] + [[ch["m"], ch["m2"], ch["v"]]]
                         ids = [m_ for m_ in params["vol"] if params["vol"][m_] > 0]
                         if ch["m"] in ids and ch["m2"] in ids and is_pd(len(ids), ids, trial):
                             f.set_correlation(market_id1=ch["m"], market_id2=ch["m2"], corr=ch["v"], time=t)
+                            params["corr"][(min(ch["m"], ch["m2"]), max(ch["m"], ch["m2"]))] = ch["v"]
                             res.count("class/correlation_change")
                         else:
                             res.count("correlation_change_skipped(not admissible)")
                             continue
                     elif what == "rmcorr":
-                        if f.correlation:
-                            (a, b) = sorted(f.correlation)[0]
+                        if params["corr"]:
+                            (a, b) = sorted(params["corr"])[0]
                             ids = [m_ for m_ in params["vol"] if params["vol"][m_] > 0]
-                            rest = [[x, y, c] for (x, y), c in f.correlation.items() if (x, y) != (a, b)]
+                            rest = [[x, y, c] for (x, y), c in params["corr"].items() if (x, y) != (a, b)]
                             if not is_pd(len(ids), ids, rest):
                                 res.count("correlation_change_skipped(not admissible)")
                                 continue
                             f.remove_correlation(market_id1=a, market_id2=b, time=t)
+                            del params["corr"][(a, b)]
                             res.count("class/correlation_change")
                         else:
                             continue
